@@ -171,6 +171,8 @@ def _float(x=0):
         return Fraction(int(x), 1)
     if isinstance(x, int):
         return Fraction(x, 1)
+    if isinstance(x, (tuple, list, dict, set)) or x is None:
+        raise X.PyRaise(X.Obj(X.BUILTIN_EXC["TypeError"], {"args": ("float() argument must be a string or a real number",)}))
     return x
 
 
@@ -269,6 +271,8 @@ def _zip(interp, *its, strict=False):
                 seq = list(interp.iterate(it))
                 ns.append(len(seq))
                 gets.append((lambda seq: lambda i: L._seq_get(seq, i))(seq))
+        if any(not is_sym(m) and m == 0 for m in ns):
+            return []
         n = ns[0]
         for m in ns[1:]:
             same = (is_sym(n) and is_sym(m) and n.t.eq(m.t)) or (not is_sym(n) and not is_sym(m) and n == m)
@@ -494,6 +498,12 @@ def _hash(interp, x):
 @bi("hasattr")
 @wants_interp
 def _hasattr(interp, o, name):
+    if isinstance(o, (tuple, list, dict, set, frozenset, str, range)) or (isinstance(o, SArr) and name in ("__iter__", "__len__", "shape")):
+        if isinstance(o, SArr):
+            return o.ndim > 0 or name == "shape"
+        return hasattr(o, name)
+    if (is_sym(o) or isinstance(o, (int, float, Fraction))) and name in ("__iter__", "__len__"):
+        return False
     try:
         interp.getattr(o, name)
         return True
@@ -1838,11 +1848,11 @@ def _from_delayed(interp, value, shape, dtype=None, meta=None, name=None):
     arr = A.from_nested(v)
     shape = tuple(X._unfrac(s_) for s_ in shape)
     if len(shape) != arr.ndim:
-        interp.path.oblige(f"safety.declared_shape@L{interp.lineno}", False, {"kind": "safety", "line": interp.lineno})
+        interp.path.oblige(f"safety.declared_shape@L{interp.lineno}", False, {"kind": "safety", "line": interp.lineno, "clause": "declared shape == shape the task yields"})
     else:
         interp.path.oblige(f"safety.declared_shape@L{interp.lineno}",
                            V.sand(*[V.compare("==", a, b) for a, b in zip(shape, arr.shape)]) if shape else True,
-                           {"kind": "safety", "line": interp.lineno})
+                           {"kind": "safety", "line": interp.lineno, "clause": "declared shape == shape the task yields"})
     return arr
 
 
